@@ -64,6 +64,10 @@ Steps:
    Earlier attempts concentrated on the replay loop, GC ordering and the frame reader: prefer other places if the
    property allows it - the in-memory queue (`src/mem`), the rolling buffer, record (de)serialisation in
    `src/record.rs`, the writer's BufWriter / offset bookkeeping, persist-policy state, summary / resource-usage code.
+   Defects whose effect only shows through a second-order observation are especially welcome: a LATER call that
+   behaves differently, timing / policy state, resource accounting, what a crash image contains, or the interplay of
+   two features (explicit persist + policy; explicit positions + truncation; restart + GC; long names + roll-over;
+   empty payloads + batches; delete + re-create of a queue).
    A plausible maintainer mistake (refactor, "optimisation", tidy-up, boundary condition) is ideal.
 4. Write a demonstration that FAILS with your change and PASSES without it. Preferably a Rust integration test
    {root}/{p}/tests/seeded_demo.rs using the public API of `mrecordlog` + `tempfile` (already a
